@@ -133,6 +133,13 @@ Theorem C13_smtp_client_in_source : ob_smtp_text_conn_locked = true /\ ob_privat
 Proof. exact (conj ob_smtp_text_conn_locked_true (conj ob_private_client_owned_true ob_send_no_rlock_true)). Qed.
 Print Assumptions C13_smtp_client_in_source.
 
+(* no method of smtp.Client writes through a pointer parameter (StartTLS leaves the caller's *tls.Config alone), and
+   no method of mail.Client writes through a pointer kept in a field without c.mutex held exclusively (such writes
+   are part of the write inventory of C13_client_writes_locked_in_source) *)
+Theorem C13_no_shared_pointee_writes_in_source : ob_no_shared_pointee_writes = true.
+Proof. exact ob_no_shared_pointee_writes_true. Qed.
+Print Assumptions C13_no_shared_pointee_writes_in_source.
+
 (* ownership, model side: an object only goroutine j's program touches is accessed by j alone, under every schedule *)
 Theorem C13_private_object_owner : forall (p0 : pool) (j : nat) (o : obj) (sched : list nat),
   (forall i, i <> j -> touches o (p0 i) = false) ->
